@@ -1,8 +1,367 @@
-(* C12 lemmas (stub, filled in below) *)
-From Coq Require Import List String Bool Arith PeanoNat Lia.
-From PAFC01 Require Import ModelTree.
-From PAFC12 Require Import Gen Model.
+(* C12 structural lemmas: the recursive rebuild (gaussian_prior_model_for_arguments) substitutes
+   priors by identity and changes nothing else.  Parametric in the value type. *)
+From Coq Require Import List String Bool Arith PeanoNat Lia Permutation Sorted.
+From PAFC01 Require Import ModelTree Sorting.
+From PAFC01 Require Proofs Proofs2.
+From PAFC12 Require Import Gen Model Lib.
 Import ListNotations.
+Local Open Scope string_scope.
+Local Open Scope list_scope.
 
-Lemma rebuild_const (V : Type) (s : nat -> option nat) (v : V) : rebuild V s (NConst v) = Some (NConst v).
-Proof. reflexivity. Qed.
+Section R.
+  Variable V : Type.
+  Notation node := (node V).
+  Notation node_ind' := (PAFC01.Proofs.node_ind' V).
+
+  Definition is_leaf (n : node) : bool := match n with NPrior _ | NConst _ => true | _ => false end.
+  Definition is_tuple (n : node) : bool := match n with NTuple _ => true | _ => false end.
+
+  (* compositions the model speaks about: tuple members are priors or floats with distinct positions;
+     the two operands of an arithmetic prior stored under one attribute name are one object;
+     a Collection does not hold a TuplePrior directly *)
+  Fixpoint wf (n : node) : Prop :=
+    match n with
+    | NPrior _ | NConst _ => True
+    | NTuple ms => Forall (fun m => is_leaf (snd (snd m)) = true) ms /\ NoDup (map (member_pos V) ms)
+    | NBin _ ln rn l r => wf l /\ wf r /\ (ln = rn -> l = r)
+    | NModel _ _ attrs =>
+        (fix go (a : list (string * node)) : Prop :=
+           match a with [] => True | (_, c) :: a' => wf c /\ go a' end) attrs
+    | NColl attrs =>
+        (fix go (a : list (string * node)) : Prop :=
+           match a with [] => True | (_, c) :: a' => (wf c /\ is_tuple c = false) /\ go a' end) attrs
+    end.
+
+  (* no float constant is held directly by a Collection (anywhere in the tree) *)
+  Fixpoint coll_const_free (n : node) : Prop :=
+    match n with
+    | NPrior _ | NConst _ | NTuple _ => True
+    | NBin _ _ _ l r => coll_const_free l /\ coll_const_free r
+    | NModel _ _ attrs =>
+        (fix go (a : list (string * node)) : Prop :=
+           match a with [] => True | (_, c) :: a' => coll_const_free c /\ go a' end) attrs
+    | NColl attrs =>
+        (fix go (a : list (string * node)) : Prop :=
+           match a with [] => True | (_, c) :: a' => (coll_const_free c /\ is_const V c = false) /\ go a' end) attrs
+    end.
+
+  Lemma wf_model cls ctor attrs : wf (NModel cls ctor attrs) <-> Forall (fun kc => wf (snd kc)) attrs.
+  Proof.
+    simpl. induction attrs as [|[k c] a IH]; simpl.
+    - split; intro; constructor.
+    - split; intro H.
+      + constructor; [exact (proj1 H)|apply IH; exact (proj2 H)].
+      + inversion H; subst. split; [assumption|apply IH; assumption].
+  Qed.
+
+  Lemma wf_coll attrs : wf (NColl attrs) <-> Forall (fun kc => wf (snd kc) /\ is_tuple (snd kc) = false) attrs.
+  Proof.
+    simpl. induction attrs as [|[k c] a IH]; simpl.
+    - split; intro; constructor.
+    - split; intro H.
+      + constructor; [exact (proj1 H)|apply IH; exact (proj2 H)].
+      + inversion H; subst. split; [assumption|apply IH; assumption].
+  Qed.
+
+  Lemma ccf_model cls ctor attrs :
+    coll_const_free (NModel cls ctor attrs) <-> Forall (fun kc => coll_const_free (snd kc)) attrs.
+  Proof.
+    simpl. induction attrs as [|[k c] a IH]; simpl.
+    - split; intro; constructor.
+    - split; intro H.
+      + constructor; [exact (proj1 H)|apply IH; exact (proj2 H)].
+      + inversion H; subst. split; [assumption|apply IH; assumption].
+  Qed.
+
+  Lemma ccf_coll attrs :
+    coll_const_free (NColl attrs) <-> Forall (fun kc => coll_const_free (snd kc) /\ is_const V (snd kc) = false) attrs.
+  Proof.
+    simpl. induction attrs as [|[k c] a IH]; simpl.
+    - split; intro; constructor.
+    - split; intro H.
+      + constructor; [exact (proj1 H)|apply IH; exact (proj2 H)].
+      + inversion H; subst. split; [assumption|apply IH; assumption].
+  Qed.
+
+  (* ---------- the walk as flat maps ---------- *)
+  Definition walk_attrs (a : list (string * node)) : list (path * nat) :=
+    flat_map (fun kc => prefix_paths (fst kc) (walk V (snd kc))) a.
+  Definition walk_members (ms : list (string * (nat * node))) : list (path * nat) :=
+    flat_map (fun m => prefix_paths (fst m) (walk V (snd (snd m)))) ms.
+
+  Lemma walk_model cls ctor attrs : walk V (NModel cls ctor attrs) = walk_attrs attrs.
+  Proof. cbn [walk]. induction attrs as [|[k c] a IH]; simpl; [reflexivity|]. rewrite IH. reflexivity. Qed.
+  Lemma walk_coll attrs : walk V (NColl attrs) = walk_attrs attrs.
+  Proof. cbn [walk]. induction attrs as [|[k c] a IH]; simpl; [reflexivity|]. rewrite IH. reflexivity. Qed.
+  Lemma walk_tuple ms : walk V (NTuple ms) = walk_members ms.
+  Proof. cbn [walk]. induction ms as [|[k [i c]] a IH]; simpl; [reflexivity|]. rewrite IH. reflexivity. Qed.
+
+  Definition prior_ids (n : node) : list nat := map snd (walk V n).
+
+  Lemma prior_ids_attr (attrs : list (string * node)) (k : string) (c : node) (q : nat) :
+    In (k, c) attrs -> In q (prior_ids c) -> In q (map snd (walk_attrs attrs)).
+  Proof.
+    intros Hin Hq. unfold walk_attrs. induction attrs as [|[k' c'] a IH]; [contradiction|].
+    simpl. rewrite map_app. apply in_or_app. destruct Hin as [E|Hin].
+    - inversion E; subst. left. unfold prefix_paths. rewrite map_map. simpl. exact Hq.
+    - right. apply IH. exact Hin.
+  Qed.
+
+  Lemma prior_ids_bin o ln rn l r (q : nat) :
+    wf (NBin o ln rn l r) ->
+    (In q (prior_ids (NBin o ln rn l r)) <-> In q (prior_ids l) \/ In q (prior_ids r)).
+  Proof.
+    intros [_ [_ Wn]]. unfold prior_ids. cbn [walk].
+    destruct (String.eqb_spec ln rn) as [E|_].
+    - rewrite (Wn E). unfold prefix_paths. rewrite map_map. simpl. tauto.
+    - rewrite map_app. unfold prefix_paths. rewrite !map_map. simpl. rewrite in_app_iff. tauto.
+  Qed.
+
+  Lemma prior_ids_cons k c a (q : nat) :
+    In q (map snd (walk_attrs ((k, c) :: a))) <-> In q (prior_ids c) \/ In q (map snd (walk_attrs a)).
+  Proof.
+    unfold walk_attrs, prior_ids. simpl. rewrite map_app, in_app_iff. unfold prefix_paths. rewrite map_map. simpl. tauto.
+  Qed.
+
+
+  Section Sub.
+    Variable sigma : nat -> option nat.
+
+    (* the prior that takes the place of q (q itself when the arguments have no entry) *)
+    Definition sd (q : nat) : nat := match sigma q with Some q' => q' | None => q end.
+    Definition ren_walk (l : list (path * nat)) : list (path * nat) := map (fun pq => (fst pq, sd (snd pq))) l.
+
+    Lemma ren_walk_app l1 l2 : ren_walk (l1 ++ l2) = ren_walk l1 ++ ren_walk l2.
+    Proof. apply map_app. Qed.
+    Lemma ren_walk_prefix k l : ren_walk (prefix_paths k l) = prefix_paths k (ren_walk l).
+    Proof. unfold ren_walk, prefix_paths. rewrite !map_map. reflexivity. Qed.
+
+    (* ---------- rebuild of attribute lists ---------- *)
+    Fixpoint rebuild_attrs (a : list (string * node)) : option (list (string * node)) :=
+      match a with
+      | [] => Some []
+      | (k, c) :: a' =>
+          match rebuild V sigma c, rebuild_attrs a' with
+          | Some c', Some r => Some ((k, c') :: r)
+          | _, _ => None
+          end
+      end.
+
+    Fixpoint rebuild_items (a : list (string * node)) : option (list (string * node)) :=
+      match a with
+      | [] => Some []
+      | (k, c) :: a' =>
+          match c with
+          | NConst _ | NTuple _ => rebuild_items a'
+          | _ => match rebuild V sigma c, rebuild_items a' with
+                 | Some c', Some r => Some ((k, c') :: r)
+                 | _, _ => None
+                 end
+          end
+      end.
+
+    Lemma rebuild_items_cons k c a :
+      rebuild_items ((k, c) :: a) =
+      if is_const V c || is_tuple c then rebuild_items a
+      else match rebuild V sigma c, rebuild_items a with
+           | Some c', Some r => Some ((k, c') :: r)
+           | _, _ => None
+           end.
+    Proof. destruct c; reflexivity. Qed.
+
+    Lemma rebuild_model cls ctor attrs :
+      rebuild V sigma (NModel cls ctor attrs) = option_map (NModel cls ctor) (rebuild_attrs attrs).
+    Proof.
+      reflexivity.
+    Qed.
+
+    Lemma rebuild_coll attrs : rebuild V sigma (NColl attrs) = option_map NColl (rebuild_items attrs).
+    Proof.
+      reflexivity.
+    Qed.
+
+    (* ---------- tuples ---------- *)
+    Lemma tuple_priors_walk (ms : list (string * (nat * node))) :
+      Forall (fun m => is_leaf (snd (snd m)) = true) ms ->
+      forall ps, tuple_priors V sigma ms = Some ps -> walk_members ps = ren_walk (walk_members ms).
+    Proof.
+      induction 1 as [|[k [i c]] ms Hc Hms IH]; intros ps E; simpl in E.
+      - inversion E; subst. reflexivity.
+      - destruct c as [p|v|?|? ? ? ? ?|? ? ?|?]; simpl in Hc; try discriminate.
+        + destruct (sigma p) as [p'|] eqn:Ep; [|discriminate].
+          destruct (tuple_priors V sigma ms) as [r|] eqn:Er; [|discriminate].
+          inversion E; subst. unfold walk_members in *. simpl. rewrite (IH r eq_refl).
+          unfold sd. rewrite Ep. reflexivity.
+        + unfold walk_members in *. simpl. apply IH. exact E.
+    Qed.
+
+    Lemma consts_walk (ms : list (string * (nat * node))) :
+      (forall m, In m ms -> is_const V (snd (snd m)) = true) -> walk_members ms = [].
+    Proof.
+      induction ms as [|[k [i c]] ms IH]; intro H; [reflexivity|].
+      unfold walk_members in *. simpl.
+      assert (Hc := H _ (or_introl eq_refl)). simpl in Hc. destruct c; try discriminate. simpl.
+      apply IH. intros m Hm. apply H. right. exact Hm.
+    Qed.
+
+    Lemma tuple_consts_const (ms : list (string * (nat * node))) :
+      forall m, In m (tuple_consts V ms) -> is_const V (snd (snd m)) = true.
+    Proof.
+      intros m Hm. unfold tuple_consts in Hm. apply sort_by_in in Hm. apply filter_In in Hm. exact (proj2 Hm).
+    Qed.
+
+    (* ---------- paths and identities: the new model has the walk of the old one with every prior
+       replaced by the prior given for it ---------- *)
+    Lemma rebuild_walk : forall n, wf n -> forall n', rebuild V sigma n = Some n' -> walk V n' = ren_walk (walk V n).
+    Proof.
+      induction n as [p|v|ms _|o ln rn l r IHl IHr|cls ctor attrs IH|attrs IH] using node_ind'; intros W n' E.
+      - simpl in E. destruct (sigma p) as [p'|] eqn:Ep; [|discriminate]. inversion E; subst.
+        simpl. unfold sd. rewrite Ep. reflexivity.
+      - inversion E; subst. reflexivity.
+      - cbn [rebuild] in E. destruct (tuple_priors V sigma ms) as [ps|] eqn:Ep; [|discriminate].
+        inversion E; subst. destruct W as [Wl _].
+        rewrite !walk_tuple. unfold walk_members at 1. rewrite flat_map_app.
+        change (walk_members ps ++ walk_members (tuple_consts V ms) = ren_walk (walk_members ms)).
+        rewrite (consts_walk _ (tuple_consts_const ms)). rewrite app_nil_r.
+        apply tuple_priors_walk; assumption.
+      - cbn [rebuild] in E. destruct W as [Wl [Wr _]].
+        destruct (rebuild V sigma l) as [l'|] eqn:El; [|discriminate].
+        destruct (rebuild V sigma r) as [r'|] eqn:Er; [|discriminate].
+        inversion E; subst. cbn [walk]. rewrite (IHl Wl _ eq_refl), (IHr Wr _ eq_refl).
+        destruct (String.eqb ln rn).
+        + rewrite ren_walk_prefix. reflexivity.
+        + rewrite ren_walk_app, !ren_walk_prefix. reflexivity.
+      - rewrite rebuild_model in E. destruct (rebuild_attrs attrs) as [a'|] eqn:Ea; [|discriminate].
+        inversion E; subst. rewrite !walk_model. apply wf_model in W.
+        clear E. revert a' Ea. induction attrs as [|[k c] a IHa]; intros a' Ea; simpl in Ea.
+        + inversion Ea; subst. reflexivity.
+        + inversion IH as [|? ? IHc IHrest]; subst. inversion W as [|? ? Wc Wrest]; subst.
+          destruct (rebuild V sigma c) as [c'|] eqn:Ec; [|discriminate].
+          destruct (rebuild_attrs a) as [r|] eqn:Er; [|discriminate].
+          inversion Ea; subst. unfold walk_attrs in *. simpl. simpl in IHc.
+          rewrite ren_walk_app, ren_walk_prefix. rewrite (IHc Wc _ Ec). f_equal.
+          apply IHa; auto.
+      - rewrite rebuild_coll in E. destruct (rebuild_items attrs) as [a'|] eqn:Ea; [|discriminate].
+        inversion E; subst. rewrite !walk_coll. apply wf_coll in W.
+        clear E. revert a' Ea. induction attrs as [|[k c] a IHa]; intros a' Ea.
+        + inversion Ea; subst. reflexivity.
+        + inversion IH as [|? ? IHc IHrest]; subst. inversion W as [|? ? [Wc Wt] Wrest]; subst.
+          simpl in Wc, Wt. rewrite rebuild_items_cons in Ea. rewrite Wt, orb_false_r in Ea.
+          unfold walk_attrs in *. cbn [flat_map fst snd].
+          destruct (is_const V c) eqn:Cc.
+          * destruct c; try discriminate Cc. simpl. apply IHa; auto.
+          * destruct (rebuild V sigma c) as [c'|] eqn:Ec; [|discriminate].
+            destruct (rebuild_items a) as [r0|] eqn:Er; [|discriminate].
+            inversion Ea; subst. cbn [flat_map fst snd].
+            rewrite ren_walk_app, ren_walk_prefix. rewrite (IHc Wc _ Ec). f_equal. apply IHa; auto.
+    Qed.
+
+    (* ---------- the rebuild succeeds exactly when every prior of the model has an entry ---------- *)
+    Lemma tuple_priors_total (ms : list (string * (nat * node))) :
+      Forall (fun m => is_leaf (snd (snd m)) = true) ms ->
+      (forall q, In q (map snd (walk_members ms)) -> sigma q <> None) ->
+      exists ps, tuple_priors V sigma ms = Some ps.
+    Proof.
+      induction 1 as [|[k [i c]] ms Hc Hms IH]; intro T; simpl; [eexists; reflexivity|].
+      assert (T' : forall q, In q (map snd (walk_members ms)) -> sigma q <> None).
+      { intros q Hq. apply T. unfold walk_members in *. simpl. rewrite map_app. apply in_or_app. right. exact Hq. }
+      destruct (IH T') as [ps Eps].
+      destruct c as [p|v|?|? ? ? ? ?|? ? ?|?]; simpl in Hc; try discriminate.
+      - destruct (sigma p) as [p'|] eqn:Ep.
+        + rewrite Eps. eexists; reflexivity.
+        + exfalso. apply (T p); [|exact Ep]. unfold walk_members. simpl. left. reflexivity.
+      - exists ps. exact Eps.
+    Qed.
+
+    Lemma rebuild_total : forall n, wf n -> (forall q, In q (prior_ids n) -> sigma q <> None) ->
+      exists n', rebuild V sigma n = Some n'.
+    Proof.
+      induction n as [p|v|ms _|o ln rn l r IHl IHr|cls ctor attrs IH|attrs IH] using node_ind'; intros W T.
+      - simpl. destruct (sigma p) as [p'|] eqn:Ep; [eexists; reflexivity|].
+        exfalso. apply (T p); [left; reflexivity|exact Ep].
+      - eexists; reflexivity.
+      - destruct W as [Wl _]. cbn [rebuild].
+        destruct (tuple_priors_total ms Wl) as [ps Eps].
+        + intros q Hq. apply T. unfold prior_ids. rewrite walk_tuple. exact Hq.
+        + rewrite Eps. eexists; reflexivity.
+      - assert (W' := W). destruct W as [Wl [Wr _]]. cbn [rebuild].
+        destruct (IHl Wl) as [l' El]; [intros q Hq; apply T; apply (prior_ids_bin _ _ _ _ _ q W'); left; exact Hq|].
+        destruct (IHr Wr) as [r' Er]; [intros q Hq; apply T; apply (prior_ids_bin _ _ _ _ _ q W'); right; exact Hq|].
+        rewrite El, Er. eexists; reflexivity.
+      - rewrite rebuild_model. apply wf_model in W. unfold prior_ids in T. rewrite walk_model in T.
+        assert (X : exists a', rebuild_attrs attrs = Some a').
+        { induction attrs as [|[k c] a IHa]; [eexists; reflexivity|].
+          inversion IH as [|? ? IHc IHrest]; subst. inversion W as [|? ? Wc Wrest]; subst. simpl in IHc, Wc.
+          simpl. destruct (IHc Wc) as [c' Ec]; [intros q Hq; apply T; apply prior_ids_cons; left; exact Hq|].
+          destruct (IHa IHrest Wrest) as [r Er]; [intros q Hq; apply T; apply prior_ids_cons; right; exact Hq|].
+          rewrite Ec, Er. eexists; reflexivity. }
+        destruct X as [a' Ea]. rewrite Ea. eexists; reflexivity.
+      - rewrite rebuild_coll. apply wf_coll in W. unfold prior_ids in T. rewrite walk_coll in T.
+        assert (X : exists a', rebuild_items attrs = Some a').
+        { induction attrs as [|[k c] a IHa]; [eexists; reflexivity|].
+          inversion IH as [|? ? IHc IHrest]; subst. inversion W as [|? ? [Wc Wt] Wrest]; subst. simpl in IHc, Wc, Wt.
+          rewrite rebuild_items_cons.
+          destruct (IHa IHrest Wrest) as [r Er]; [intros q Hq; apply T; apply prior_ids_cons; right; exact Hq|].
+          destruct (is_const V c || is_tuple c); [exists r; exact Er|].
+          destruct (IHc Wc) as [c' Ec]; [intros q Hq; apply T; apply prior_ids_cons; left; exact Hq|].
+          rewrite Ec, Er. eexists; reflexivity. }
+        destruct X as [a' Ea]. rewrite Ea. eexists; reflexivity.
+    Qed.
+
+    Lemma tuple_priors_defined (ms : list (string * (nat * node))) :
+      Forall (fun m => is_leaf (snd (snd m)) = true) ms ->
+      forall ps, tuple_priors V sigma ms = Some ps ->
+      forall q, In q (map snd (walk_members ms)) -> sigma q <> None.
+    Proof.
+      induction 1 as [|[k [i c]] ms Hc Hms IH]; intros ps E q Hq; [contradiction|].
+      unfold walk_members in Hq. simpl in Hq. rewrite map_app in Hq. apply in_app_or in Hq.
+      destruct c as [p|v|?|? ? ? ? ?|? ? ?|?]; simpl in Hc; try discriminate; simpl in E.
+      - destruct (sigma p) as [p'|] eqn:Ep; [|discriminate].
+        destruct (tuple_priors V sigma ms) as [r|] eqn:Er; [|discriminate].
+        destruct Hq as [Hq|Hq].
+        + simpl in Hq. destruct Hq as [<-|[]]. rewrite Ep. discriminate.
+        + apply (IH r eq_refl). exact Hq.
+      - destruct Hq as [Hq|Hq]; [contradiction|]. apply (IH ps E). exact Hq.
+    Qed.
+
+    Lemma rebuild_defined : forall n, wf n -> forall n', rebuild V sigma n = Some n' ->
+      forall q, In q (prior_ids n) -> sigma q <> None.
+    Proof.
+      induction n as [p|v|ms _|o ln rn l r IHl IHr|cls ctor attrs IH|attrs IH] using node_ind'; intros W n' E q Hq.
+      - simpl in Hq. destruct Hq as [<-|[]]. simpl in E. destruct (sigma p); [discriminate|discriminate].
+      - contradiction.
+      - destruct W as [Wl _]. cbn [rebuild] in E.
+        destruct (tuple_priors V sigma ms) as [ps|] eqn:Eps; [|discriminate].
+        apply (tuple_priors_defined ms Wl ps Eps). unfold prior_ids in Hq. rewrite walk_tuple in Hq. exact Hq.
+      - assert (W' := W). destruct W as [Wl [Wr _]]. cbn [rebuild] in E.
+        destruct (rebuild V sigma l) as [l'|] eqn:El; [|discriminate].
+        destruct (rebuild V sigma r) as [r'|] eqn:Er; [|discriminate].
+        apply (prior_ids_bin _ _ _ _ _ q W') in Hq. destruct Hq as [Hq|Hq].
+        + apply (IHl Wl _ eq_refl q Hq).
+        + apply (IHr Wr _ eq_refl q Hq).
+      - rewrite rebuild_model in E. destruct (rebuild_attrs attrs) as [a'|] eqn:Ea; [|discriminate].
+        apply wf_model in W. unfold prior_ids in Hq. rewrite walk_model in Hq. clear E.
+        revert a' Ea. induction attrs as [|[k c] a IHa]; intros a' Ea; [contradiction|].
+        inversion IH as [|? ? IHc IHrest]; subst. inversion W as [|? ? Wc Wrest]; subst. simpl in Wc.
+        simpl in Ea. destruct (rebuild V sigma c) as [c'|] eqn:Ec; [|discriminate].
+        destruct (rebuild_attrs a) as [r|] eqn:Er; [|discriminate].
+        apply prior_ids_cons in Hq. destruct Hq as [Hq|Hq].
+        + apply (IHc Wc _ Ec q Hq).
+        + apply (IHa IHrest Wrest Hq r eq_refl).
+      - rewrite rebuild_coll in E. destruct (rebuild_items attrs) as [a'|] eqn:Ea; [|discriminate].
+        apply wf_coll in W. unfold prior_ids in Hq. rewrite walk_coll in Hq. clear E.
+        revert a' Ea. induction attrs as [|[k c] a IHa]; intros a' Ea; [contradiction|].
+        inversion IH as [|? ? IHc IHrest]; subst. inversion W as [|? ? [Wc Wt] Wrest]; subst. simpl in Wc, Wt.
+        rewrite rebuild_items_cons in Ea. rewrite Wt, orb_false_r in Ea.
+        apply prior_ids_cons in Hq.
+        destruct (is_const V c) eqn:Cc.
+        + destruct Hq as [Hq|Hq]; [destruct c; try discriminate Cc; contradiction|].
+          apply (IHa IHrest Wrest Hq a' Ea).
+        + destruct (rebuild V sigma c) as [c'|] eqn:Ec; [|discriminate].
+          destruct (rebuild_items a) as [r|] eqn:Er; [|discriminate].
+          destruct Hq as [Hq|Hq].
+          * apply (IHc Wc _ Ec q Hq).
+          * apply (IHa IHrest Wrest Hq r eq_refl).
+    Qed.
+  End Sub.
+End R.
